@@ -44,6 +44,12 @@ def equivalences():
         add(f"group_by_vs_partition_by/{fname}", ("a", "f", "h"), lambda x, c, f=f: x >> pdt.group_by(x.f) >> pdt.mutate(w=f(x, arrange=[x.a.nulls_last(), x.h])) >> pdt.ungroup(),
             lambda x, c, f=f: x >> pdt.mutate(w=f(x, partition_by=x.f, arrange=[x.a.nulls_last(), x.h])), uniq=True)
         if fname != "sum":
+            for mname, mk in (("desc.nulls_last", lambda e: e.descending().nulls_last()), ("desc.nulls_first", lambda e: e.descending().nulls_first()), ("nulls_first.desc", lambda e: e.nulls_first().descending())):
+                add(f"arrange_verb_vs_arrange_kwarg/{fname}/{mname}", ("a", "f", "h"), lambda x, c, f=f, mk=mk: x >> pdt.group_by(x.f) >> pdt.arrange(mk(x.a), x.h) >> pdt.mutate(w=f(x)) >> pdt.ungroup(),
+                    lambda x, c, f=f, mk=mk: x >> pdt.mutate(w=f(x, partition_by=x.f, arrange=[mk(x.a), x.h])) >> pdt.arrange(mk(x.a), x.h), uniq=True)
+                add(f"group_by_vs_partition_by/{fname}/{mname}", ("a", "f", "h"), lambda x, c, f=f, mk=mk: x >> pdt.group_by(x.f) >> pdt.mutate(w=f(x, arrange=[mk(x.a), x.h])) >> pdt.ungroup(),
+                    lambda x, c, f=f, mk=mk: x >> pdt.mutate(w=f(x, partition_by=x.f, arrange=[mk(x.a), x.h])), uniq=True)
+        if fname != "sum":
             add(f"arrange_verb_vs_arrange_kwarg/{fname}", ("a", "f", "h"), lambda x, c, f=f: x >> pdt.group_by(x.f) >> pdt.arrange(x.a.nulls_last(), x.h) >> pdt.mutate(w=f(x)) >> pdt.ungroup(),
                 lambda x, c, f=f: x >> pdt.mutate(w=f(x, partition_by=x.f, arrange=[x.a.nulls_last(), x.h])) >> pdt.arrange(x.a.nulls_last(), x.h), uniq=True)
     add("drop_vs_select", ("s", "h"), lambda x, c: x >> pdt.drop(x.s), lambda x, c: x >> pdt.select(*[col for col in x if col.name != "s"]))
